@@ -135,6 +135,65 @@ def extract_model(text, getvals, timeout_s=20):
     return out
 
 
+def race(text, timeout_s, stagger=2.0):
+    """z3 5.1 first; if it has not answered after `stagger` seconds the z3 4.8.12 CLI is started alongside on
+    the same query; the first definite answer (sat/unsat) wins and the other process is killed"""
+    fd, path = tempfile.mkstemp(suffix=".smt2", prefix="vc_")
+    with os.fdopen(fd, "w") as f:
+        f.write(text)
+    procs = []
+    t0 = time.time()
+
+    def start(cmd, name):
+        p = subprocess.Popen(cmd + [path], stdout=subprocess.PIPE, stderr=subprocess.STDOUT, text=True)
+        procs.append((name, p, time.time()))
+
+    start([Z3_NEW, f"-T:{int(timeout_s)}", f"-t:{int(timeout_s * 1000)}"], "z3-5.1")
+    started_old = False
+    verdicts = {}
+    result = None
+    try:
+        while True:
+            now = time.time()
+            for name, p, ts in procs:
+                if name in verdicts:
+                    continue
+                if p.poll() is not None:
+                    out = (p.stdout.read() or "").strip()
+                    first = out.splitlines()[0].strip() if out else ""
+                    verdicts[name] = first if first in ("sat", "unsat", "unknown") else ("timeout" if "timeout" in out else "error")
+                    if verdicts[name] in ("sat", "unsat"):
+                        result = (verdicts[name], name, out)
+                        break
+            if result:
+                break
+            if not started_old and Z3_OLD and now - t0 >= stagger:
+                start([Z3_OLD, f"-T:{int(timeout_s)}"], "z3-4.8.12")
+                started_old = True
+            if len(verdicts) == len(procs) and (started_old or not Z3_OLD):
+                break
+            if now - t0 > timeout_s + stagger + 3:
+                break
+            time.sleep(0.01)
+    finally:
+        for _, p, _ in procs:
+            if p.poll() is None:
+                p.kill()
+            try:
+                p.stdout.close()
+            except Exception:
+                pass
+        try:
+            os.unlink(path)
+        except OSError:
+            pass
+    dt = time.time() - t0
+    if result:
+        return result[0], dt, result[2], result[1], verdicts
+    v = "unknown" if "unknown" in verdicts.values() else "timeout"
+    return v, dt, "", "z3-5.1", verdicts
+
+
 class Pool:
     def __init__(self, workers=None):
         self.workers = workers or min(16, (os.cpu_count() or 4))
@@ -143,15 +202,10 @@ class Pool:
         """fills verdict/time/backend on every obligation"""
         def work(ob):
             text = ob.smt2
-            v, dt, out = solve_z3new(text, timeout_s)
-            ob.verdict, ob.time, ob.backend = v, dt, "z3-5.1"
+            v, dt, out, who, verdicts = race(text, timeout_s)
+            ob.verdict, ob.time, ob.backend = v, dt, who
             ob.meta["solver_output"] = out[:500]
-            if v in ("unknown", "timeout") and Z3_OLD:
-                v2, dt2, out2 = solve_z3old(text, timeout_s)
-                ob.meta["z3-4.8.12"] = v2
-                ob.time += dt2
-                if v2 in ("sat", "unsat"):
-                    ob.verdict, ob.backend = v2, "z3-4.8.12"
+            ob.meta["raced"] = verdicts
             if v in ("unknown", "timeout") and ob.verdict not in ("sat", "unsat") and CVC5:
                 v3, dt3, _ = solve_cvc5(text, timeout_s)
                 ob.meta["cvc5"] = v3
